@@ -221,10 +221,18 @@ impl BatchBlobStore for ZeroLengthBlobStore {
     where
         I: IntoIterator<Item = Vec<u8>>,
     {
-        let mut ids = Vec::new();
-        for blob in blobs {
-            let id = self.put(&blob)?;
-            ids.push(id);
+        // validate the whole batch first: a refused record must not leave the records
+        // before it stored under ids the caller never receives
+        let blobs: Vec<Vec<u8>> = blobs.into_iter().collect();
+        if let Some(bad) = blobs.iter().find(|b| !b.is_empty()) {
+            return Err(ZiporaError::invalid_parameter(format!(
+                "ZeroLengthBlobStore only accepts empty blobs, got {} bytes",
+                bad.len()
+            )));
+        }
+        let mut ids = Vec::with_capacity(blobs.len());
+        for blob in &blobs {
+            ids.push(self.put(blob)?);
         }
         Ok(ids)
     }
